@@ -173,7 +173,7 @@ var c37EndpointPfx = []string{WorkloadToEndpointPfx, WorkloadFromEndpointPfx, Se
 func TestVerif_C37(t *testing.T) {
 	logrus.SetLevel(logrus.PanicLevel)
 	vk.Run(t, "C37", func(c *vk.Ctx) {
-		k := c.Pick(5, 8)
+		k := c.Pick(7, 10)
 		c.Rule(fmt.Sprintf("identities = names over the alphabet {a,_} (free positions: first 2 and last %d characters) of every length 1-3, limit-2..limit+2 and limit+9 for each naming function and table flavour "+
 			"(iptables limit 28, nftables limit 256), x all 7 policy kinds + an unknown kind starting with the marker x namespaces {none,n,_n} x both directions; all 8 endpoint chain prefixes; "+
 			"every shortened name is fed back as an identity of its own (adversarial: an object literally named like another's shortened form); policy groups over 4 selectors x all policy sequences of length <=3 from 3 policies; "+
